@@ -250,3 +250,23 @@ Proof.
   apply Nat.eqb_eq in Hl. apply N.eqb_eq in Hkw. apply N.eqb_eq in Hkb.
   repeat split; [exact Hl|rewrite Hkw|rewrite Hkb]; apply N.le_refl.
 Qed.
+
+Lemma NoDup_all_eq_length {A} (l:list A) :
+  NoDup l -> (forall a b, In a l -> In b l -> a = b) -> (length l <= 1)%nat.
+Proof.
+  intros Hnd H. destruct l as [|a [|b l']]; cbn [length]; try lia.
+  exfalso. inversion Hnd as [|x xs Hnin _]. subst. apply Hnin.
+  rewrite (H a b); [left; reflexivity|left; reflexivity|right; left; reflexivity].
+Qed.
+
+Lemma uniq_kings_le1 (p:pos) (c:color) : uniq_king p -> kings p c <= 1.
+Proof.
+  intro U. rewrite kings_unfold.
+  assert (length (filter (fun s => has p s King c) all_sq) <= 1)%nat as H.
+  { apply NoDup_all_eq_length; [apply NoDup_filter, NoDup_all_sq|].
+    intros a b Ha Hb. apply filter_In in Ha, Hb. apply (U c); [apply Ha|apply Hb]. }
+  remember (length (filter (fun s => has p s King c) all_sq)) as n eqn:En. clear En. lia.
+Qed.
+
+Lemma uniq_WFpos (p:pos) : length (placement p) = 64%nat -> uniq_king p -> WFpos p.
+Proof. intros Hl U. repeat split; [exact Hl|apply uniq_kings_le1, U|apply uniq_kings_le1, U]. Qed.
